@@ -16,17 +16,23 @@ import (
 // C17: authorisation is enforced on every route a message can take.
 //
 // E2 scenario "c17". The first op of every history selects the configuration:
-//   cfg:<bits>:<obscure>:<ver>   bits = 4 characters 0/1 for the permission relation
-//        (a,x,write) (a,w,write) (b,x,read) (b,w,read); every other (client, topic, access) triple is
-//        allowed by the ACL hook (in particular the hook itself allows writes to $SYS/... so that the
-//        broker's own refusal is what is observed). obscure = Compatibilities.ObscureNotAuthorized,
-//        ver = protocol version of a and b (4 | 5).
+//   cfg:<bits>:<obscure>:<ver>   bits = 5 characters 0/1 for the permission relation
+//        (a,x,write) (a,w,write) (b,x,read) (b,w,read) (b,'+',read); every other (client, topic, access)
+//        triple is allowed by the ACL hook (in particular the hook itself allows writes to $SYS/... so that
+//        the broker's own refusal is what is observed). The fifth entry is an entry for a wildcard FILTER
+//        STRING: the broker consults the hook with the filter at SUBSCRIBE time and with the concrete topic
+//        at delivery time, so (b,'+',read) denied with (b,x,read) allowed is a refused subscription whose
+//        matching topics are readable (quick: the fifth bit is always 0 = denied; "full": both).
+//        obscure = Compatibilities.ObscureNotAuthorized, ver = protocol version of a and b (4 | 5).
 // Clients: a = writer (publishes, has a will), b = reader, c = observer with every permission,
 // subscribed to '#' and '$SYS/#' from the start. Further ops (pools in brackets):
-//   ca:<will>       [2] a connects (clean); will in {none, w1 (retained), sysw1 ($SYS/w retained), wild (w/#); deep: w0}
-//   da              [2] a's network connection drops (will becomes due)
+//   ca:<will>       [2] a connects (clean); will in {none, w1 (retained), sysw1 ($SYS/w retained), wild (w/#); deep: w0;
+//                       v5 only: dw1, dsysw1 = the same wills with Will Delay Interval 5 s and Session Expiry 60 s}
+//   da              [2] a's network connection drops (will becomes due, or is queued for delayed sending)
+//   tk              [1] 10 s of virtual time pass and the housekeeping jobs run once (enabled while a delayed
+//                       will of a is pending: a dropped and has not reconnected)
 //   pa:<topic>:<retain>:<qos>  [P] a publishes; topic in {x, w, $SYS/x}
-//   sb:<filter>     [S] b subscribes QoS0; filter in {x, w, #}
+//   sb:<filters>    [S] b subscribes QoS0; filters in {x, w, #, +; wide: the two-filter packets "+,w" and "x,+"}
 //   rb              [1] b drops and reconnects resuming its session
 // plus a total budget of N ops per history (quick 4, thorough 5; arg "wide" adds the non-retained / QoS variants of ca and pa; arg "full" = 64 configurations instead of 32); b and c subscribe at QoS 0 so that
 // unacknowledged deliveries do not multiply the states.
@@ -40,9 +46,14 @@ import (
 //   R2 nothing a client writes is delivered or retained on a topic starting with $SYS;
 //   R3 b never receives a message on T when (b,T,read) is denied (live or retained replay, exact or
 //      wildcard subscription);
-//   R4 SUBSCRIBE of a denied exact filter is answered 0x87 (v5), 0x80 when obscured or v3/v4;
+//   R4 SUBSCRIBE of a denied filter (exact or wildcard filter string) is answered 0x87 (v5), 0x80 when
+//      obscured or v3/v4, per filter of the packet;
+//   R4b a refused subscription never delivers: b never receives a message on a topic that matches none of
+//      the filters b was granted (SUBACK code < 0x80) but matches a filter b was refused (code >= 0x80) -
+//      neither as retained replay right after the failing SUBACK nor live later;
 //   R5 a CONNECT whose will topic is not a valid topic name (wildcard) is not accepted and such a
-//      will is never published.
+//      will is never published;
+//   R1/R2 hold for wills sent after the Will Delay Interval exactly as for immediate ones (keys delayed-will:...).
 
 type c17Cfg struct {
 	aw      map[string]bool // a's write permission per topic (only x, w listed)
@@ -56,7 +67,7 @@ func c17Parse(op string) c17Cfg {
 	b := f[1]
 	return c17Cfg{
 		aw:      map[string]bool{"x": b[0] == '1', "w": b[1] == '1'},
-		br:      map[string]bool{"x": b[2] == '1', "w": b[3] == '1'},
+		br:      map[string]bool{"x": b[2] == '1', "w": b[3] == '1', "+": b[4] == '1'},
 		obscure: f[2] == "1",
 		ver:     byte(f[3][0] - '0'),
 	}
@@ -77,8 +88,9 @@ func (c c17Cfg) mayRead(topic string) bool {
 }
 
 type c17Msg struct {
-	topic string
-	will  bool
+	topic   string
+	will    bool
+	delayed bool // will with Will Delay Interval > 0
 }
 
 func c17Run(arg string) explore.HistFn {
@@ -91,13 +103,15 @@ func c17Run(arg string) explore.HistFn {
 	for bits := 0; bits < 16; bits++ {
 		bs := fmt.Sprintf("%04b", bits)
 		if strings.Contains(arg, "full") {
-			for _, o := range []string{"0", "1"} {
-				for _, v := range []string{"4", "5"} {
-					cfgs = append(cfgs, "cfg:"+bs+":"+o+":"+v)
+			for _, plus := range []string{"0", "1"} {
+				for _, o := range []string{"0", "1"} {
+					for _, v := range []string{"4", "5"} {
+						cfgs = append(cfgs, "cfg:"+bs+plus+":"+o+":"+v)
+					}
 				}
 			}
 		} else {
-			cfgs = append(cfgs, "cfg:"+bs+":0:5", "cfg:"+bs+":1:4")
+			cfgs = append(cfgs, "cfg:"+bs+"0:0:5", "cfg:"+bs+"0:1:4")
 		}
 	}
 	return func(hist []string) explore.HistResult {
@@ -126,8 +140,13 @@ func c17Run(arg string) explore.HistFn {
 			}
 		}
 		msgs := map[string]c17Msg{} // payload tag -> what was written
-		aConns, aDrops, nPub, nSub, nRb := 0, 0, 0, 0, 0
+		aConns, aDrops, nPub, nSub, nRb, nTk := 0, 0, 0, 0, 0, 0
 		aOpen := false
+		aDelayed := false                  // a's current connection carries a will with a Will Delay Interval
+		pendingDelay := false              // a dropped with such a will and has not reconnected; the delay has not passed yet
+		granted := map[string]bool{}       // filters b holds (SUBACK code < 0x80); b's session is never discarded
+		refused := map[string]bool{}       // filters b was refused (SUBACK code >= 0x80)
+		mayBeRetained := map[string]bool{} // topics a legitimately stored a retained message on (counter only)
 		bConn := func(clean bool) ref.Packet {
 			if cfg.ver == 5 {
 				return v5connect("b", clean, 0, 60)
@@ -150,6 +169,9 @@ func c17Run(arg string) explore.HistFn {
 			if m.will {
 				kind = "will"
 			}
+			if m.delayed {
+				kind = "delayed-will"
+			}
 			verb := "delivered"
 			if route == "retained-store" || route == "retained-replay" {
 				verb = "retained"
@@ -159,7 +181,7 @@ func c17Run(arg string) explore.HistFn {
 			}
 			count("deliveries-judged")
 			if m.will && strings.ContainsAny(m.topic, "+#") {
-				h.violate("will:"+verb+"-on-wildcard-topic", "%s received a's will on invalid topic name %q (%s): %v", who, m.topic, route, p)
+				h.violate(kind+":"+verb+"-on-wildcard-topic", "%s received a's will on invalid topic name %q (%s): %v", who, m.topic, route, p)
 				return
 			}
 			if strings.HasPrefix(p.Topic, "$SYS") {
@@ -171,6 +193,20 @@ func c17Run(arg string) explore.HistFn {
 			}
 			if who == "b" && !cfg.mayRead(p.Topic) {
 				h.violate("read:delivered-without-read-permission:"+route, "(b,%s,read) is denied but b received %v", p.Topic, p)
+			}
+			if who == "b" {
+				held, deniedFilter := false, ""
+				for f := range granted {
+					held = held || ref.Match(f, p.Topic)
+				}
+				for _, f := range sortedStrings(keysOf(refused)) {
+					if !granted[f] && ref.Match(f, p.Topic) && deniedFilter == "" {
+						deniedFilter = f
+					}
+				}
+				if !held && deniedFilter != "" {
+					h.violate("suback:refused-subscription-delivers:"+route, "b's SUBSCRIBE %q was refused and b holds no granted filter matching %q, but b received %v", deniedFilter, p.Topic, p)
+				}
 			}
 			if who == "b" && cfg.mayRead(p.Topic) && cfg.mayWrite(m.topic) {
 				count("permitted-deliveries-to-b")
@@ -205,14 +241,26 @@ func c17Run(arg string) explore.HistFn {
 					p.WillFlag, p.WillTopic, p.WillPayload, p.WillRetain = true, "w", []byte(tag), f[1] == "w1"
 				case "sysw1":
 					p.WillFlag, p.WillTopic, p.WillPayload, p.WillRetain = true, "$SYS/w", []byte(tag), true
+				case "dw1", "dsysw1": // v5: the will is sent 5 s after the drop unless the session is resumed or ends
+					p = v5connect("a", true, 0, 60)
+					p.WillFlag, p.WillTopic, p.WillPayload, p.WillRetain = true, "w", []byte(tag), true
+					if f[1] == "dsysw1" {
+						p.WillTopic = "$SYS/w"
+					}
+					p.WillProps = ref.Props{{ID: ref.PWillDelay, Num: 5}}
 				case "wild":
 					p.WillFlag, p.WillTopic, p.WillPayload = true, "w/#", []byte(tag)
 				}
+				aDelayed = len(p.WillProps) > 0
+				pendingDelay = false
 				if p.WillFlag {
-					msgs[tag] = c17Msg{topic: p.WillTopic, will: true}
+					msgs[tag] = c17Msg{topic: p.WillTopic, will: true, delayed: aDelayed}
 				}
 				got := h.connect("a", p)
 				aOpen = len(got) > 0 && got[0].Type == ref.CONNACK && got[0].ReasonCode == 0 && !h.Cl["a"].Closed()
+				if aDelayed && aOpen {
+					count("connects-with-delayed-will")
+				}
 				if f[1] == "wild" {
 					count("connects-with-wildcard-will-topic")
 					if aOpen {
@@ -222,8 +270,21 @@ func c17Run(arg string) explore.HistFn {
 			case "da":
 				aDrops++
 				h.Cl["a"].Drop()
+				pendingDelay = aOpen && aDelayed
 				aOpen = false
 				count("drops-of-a")
+			case "tk":
+				nTk++
+				h.W.Tick(10000)
+				h.W.Housekeep()
+				h.logf("10 s pass, housekeeping")
+				if pendingDelay {
+					count("will-delays-elapsed")
+					if m := msgs["wm"+strconv.Itoa(aConns)]; !cfg.mayWrite(m.topic) || strings.HasPrefix(m.topic, "$SYS") {
+						count("will-delays-elapsed-on-forbidden-topic")
+					}
+				}
+				pendingDelay = false
 			case "pa":
 				nPub++
 				topic, retain, qos := f[1], f[2] == "1", byte(f[3][0]-'0')
@@ -237,6 +298,8 @@ func c17Run(arg string) explore.HistFn {
 				h.do("a", pk)
 				if !cfg.mayWrite(topic) {
 					count("publishes-on-write-denied-topic")
+				} else if retain && !strings.HasPrefix(topic, "$SYS") {
+					mayBeRetained[topic] = true
 				}
 				if strings.HasPrefix(topic, "$SYS") {
 					count("publishes-on-$SYS-topic")
@@ -246,27 +309,55 @@ func c17Run(arg string) explore.HistFn {
 				}
 			case "sb":
 				nSub++
-				filter := f[1]
-				got := h.do("b", ref.Packet{Type: ref.SUBSCRIBE, PacketID: uint16(20 + nSub), Filters: []ref.Filter{{Filter: filter, Opts: 0}}})
-				if _, listed := cfg.br[filter]; listed && !cfg.mayRead(filter) {
+				filters := strings.Split(f[1], ",")
+				var fl []ref.Filter
+				for _, filter := range filters {
+					fl = append(fl, ref.Filter{Filter: filter, Opts: 0})
+				}
+				got := h.do("b", ref.Packet{Type: ref.SUBSCRIBE, PacketID: uint16(20 + nSub), Filters: fl})
+				var ack *ref.Packet
+				for i := range got {
+					if got[i].Type == ref.SUBACK {
+						ack = &got[i]
+					}
+				}
+				if ack != nil && len(ack.ReasonCodes) == len(filters) {
+					for i, filter := range filters {
+						if ack.ReasonCodes[i] < 0x80 {
+							granted[filter] = true
+							continue
+						}
+						refused[filter] = true
+						count("subscribes-refused")
+						for t := range mayBeRetained {
+							if ref.Match(filter, t) && cfg.mayRead(t) && !granted[filter] {
+								count("subscribes-refused-with-readable-retained-match")
+								break
+							}
+						}
+					}
+				}
+				for i, filter := range filters {
+					if _, listed := cfg.br[filter]; !listed || cfg.mayRead(filter) {
+						continue
+					}
 					count("subscribes-to-denied-filter")
+					if strings.ContainsAny(filter, "+#") {
+						count("subscribes-to-denied-wildcard-filter")
+					}
 					want := byte(0x87)
 					if cfg.obscure || cfg.ver < 5 {
 						want = 0x80
 					}
-					var ack *ref.Packet
-					for i := range got {
-						if got[i].Type == ref.SUBACK {
-							ack = &got[i]
-						}
-					}
 					switch {
 					case ack == nil && !h.Cl["b"].Closed():
-						h.violate("suback:missing-for-denied-filter", "SUBSCRIBE %q by b: no SUBACK: %v", filter, got)
-					case ack != nil && len(ack.ReasonCodes) == 1 && ack.ReasonCodes[0] < 0x80:
-						h.violate("suback:denied-filter-granted", "SUBSCRIBE %q by b ((b,%s,read) denied) granted: %v", filter, filter, *ack)
-					case ack != nil && (len(ack.ReasonCodes) != 1 || ack.ReasonCodes[0] != want):
-						h.violate(fmt.Sprintf("suback:denied-filter-code-not-%#x", want), "SUBSCRIBE %q by b: codes %x, want %#x (obscure=%v ver=%d)", filter, ack.ReasonCodes, want, cfg.obscure, cfg.ver)
+						h.violate("suback:missing-for-denied-filter", "SUBSCRIBE %q by b: no SUBACK: %v", f[1], got)
+					case ack != nil && len(ack.ReasonCodes) != len(filters):
+						h.violate("suback:reason-code-count", "SUBSCRIBE %q by b: %d filters, codes %x", f[1], len(filters), ack.ReasonCodes)
+					case ack != nil && ack.ReasonCodes[i] < 0x80:
+						h.violate("suback:denied-filter-granted", "SUBSCRIBE %q by b ((b,%s,read) denied) granted: %v", f[1], filter, *ack)
+					case ack != nil && ack.ReasonCodes[i] != want:
+						h.violate(fmt.Sprintf("suback:denied-filter-code-not-%#x", want), "SUBSCRIBE %q by b: codes %x, want %#x for %q (obscure=%v ver=%d)", f[1], ack.ReasonCodes, want, filter, cfg.obscure, cfg.ver)
 					}
 				}
 				// deliveries in got were consumed by do(): judge them here
@@ -295,6 +386,12 @@ func c17Run(arg string) explore.HistFn {
 				if wide {
 					next = append(next, "ca:w0")
 				}
+				if cfg.ver == 5 {
+					next = append(next, "ca:dw1", "ca:dsysw1")
+				}
+			}
+			if pendingDelay && nTk < 1 {
+				next = append(next, "tk")
 			}
 			if aOpen {
 				if aDrops < 2 {
@@ -308,13 +405,16 @@ func c17Run(arg string) explore.HistFn {
 				}
 			}
 			if nSub < maxS && !h.Cl["b"].Closed() {
-				next = append(next, "sb:x", "sb:w", "sb:#")
+				next = append(next, "sb:x", "sb:w", "sb:#", "sb:+")
+				if wide {
+					next = append(next, "sb:+,w", "sb:x,+")
+				}
 			}
 			if nRb < 1 && nSub > 0 {
 				next = append(next, "rb")
 			}
 		}
-		key := h.W.State() + fmt.Sprintf("|%s|%d|%d,%d,%d,%d,%d|%v", hist[0], len(hist), aConns, aDrops, nPub, nSub, nRb, aOpen)
+		key := h.W.State() + fmt.Sprintf("|%s|%d|%d,%d,%d,%d,%d,%d|%v,%v,%v|%v|%v", hist[0], len(hist), aConns, aDrops, nPub, nSub, nRb, nTk, aOpen, aDelayed, pendingDelay, sortedStrings(keysOf(granted)), sortedStrings(keysOf(refused)))
 		// retained-store read-out by a fresh all-permission client (after the key: not part of the state)
 		h.last = true
 		t := h.W.Connect(world.ConnectPacket("t", 5, true))
@@ -333,7 +433,8 @@ func init() {
 	explore.Register("C17", func(c *explore.Ctx) {
 		c.Rep.Level = "model_checking"
 		c.Rep.Assumption("one operation at a time, broker run to quiescence under the deterministic default schedule (sequential histories)")
-		c.Rep.Assumption("permission relation implemented by a test ACL hook over {a,b} x {x,w} x {read,write}: all 16 settings of the four observable bits, every other triple allowed")
+		c.Rep.Assumption("permission relation implemented by a test ACL hook over {a,b} x {x,w} x {read,write}: all 16 settings of the four observable bits, plus the wildcard filter-string entry (b,'+',read) (quick: denied; thorough 'full': both), every other triple allowed")
+		c.Rep.Assumption("delayed wills: Will Delay Interval 5 s, Session Expiry 60 s, one step of 10 s virtual time followed by one run of the housekeeping jobs")
 		c.Rep.Assumption("state = reflective dump of *Server plus pool counters; the retained-store read-out after the last op is not part of the state")
 		if c.Quick() {
 			explore.RunBFS(c, "c17", "n=4", 0, 70*time.Second)
